@@ -22,7 +22,7 @@ LAT = {
     "zero": dict(place_latency=0.0, cancel_latency=0.0, update_latency=0.0, replace_latency=0.0),
     "large": dict(place_latency=1.0, cancel_latency=0.021, update_latency=0.119, replace_latency=0.100),
 }
-KINDS = ("place", "cancel", "update", "replace", "place+cancel")
+KINDS = ("place", "cancel", "update", "replace", "place+cancel", "cancel+place", "replace+cancel2", "cancel2+update", "place+cancel2")
 LIQ = [[2.3, 10]]  # a BACK at 2.3 fills against it; trades at 2.2 are not eligible for a BACK at 2.3
 DRY = [[1.5, 10]]
 BOOK0 = {1: {"atb": DRY, "atl": [[2.4, 10]], "trd": [[2.2, 40]]}, 2: {"atb": [[3.0, 10]], "atl": [[3.2, 10]]}}
@@ -38,7 +38,7 @@ def build_ticks(dts, ip_at=None, bd1=None):
     ticks = []
     for n, dt in enumerate(dts):
         u = n + 1
-        evs = [["B", 1, "atb", LIQ if liquid(u) else DRY], ["T", 1, [[2.2, 0.8]]]]
+        evs = [["B", 1, "atb", LIQ if liquid(u) else DRY], ["T", 1, [[2.2, 0.8], [1.6, 0.8]]]]
         if ip_at is not None and u == ip_at:
             evs.append(["IP", {}, bd1])
         ticks.append([dt, ["M", evs]])
@@ -76,18 +76,22 @@ class Hooks:
 def _world(dts, kind, lat, bd0, ip_at, bd1, with_request, two_markets):
     ticks = build_ticks(dts, ip_at, bd1)
     spec = simx.MarketSpec(book0=BOOK0, bet_delay=bd0)
-    script = {(0, 0): [["P", dict(sel=1, side="BACK", price=2.2, size=50.0)]]}  # R rests from update 1 on
+    # R (BACK 2.2) and R2 (LAY 1.6) rest from update 1 on; each is fed 0.4 per update by its own trades
+    script = {(0, 0): [["P", dict(sel=1, side="BACK", price=2.2, size=50.0)], ["P", dict(sel=1, side="LAY", price=1.6, size=50.0)]]}
     req = []
     toks = kind.split("+")
     if with_request:
-        if "place" in toks:
-            req.append(["P", dict(sel=1, side="BACK", price=2.3, size=2.0)])
-        if "cancel" in toks:
-            req.append(["C", 0, None])
-        if "update" in toks:
-            req.append(["U", 0, "PERSIST"])
-        if "replace" in toks:
-            req.append(["R", 0, 2.3])
+        for tk in toks:  # in the order given: the pending queue keeps request order
+            if tk == "place":
+                req.append(["P", dict(sel=1, side="BACK", price=2.3, size=2.0)])
+            elif tk == "cancel":
+                req.append(["C", 0, None])
+            elif tk == "cancel2":
+                req.append(["C", 1, None])
+            elif tk == "update":
+                req.append(["U", 0, "PERSIST"])
+            elif tk == "replace":
+                req.append(["R", 0, 2.3])
     if req:
         script[(0, 1)] = req
     markets = [(spec, ticks)]
@@ -105,6 +109,7 @@ def _world(dts, kind, lat, bd0, ip_at, bd1, with_request, two_markets):
         cfg=dict(LAT[lat]),
         event_processing=bool(two_markets),
     ).run()
+    h.created = list(getattr(w.strategies[0], "_created", []))
     return w, h, spec.gen(ticks)[1]
 
 
@@ -132,10 +137,14 @@ def _one(args):
     sig = []
     reqs = []
     toks = kind.split("+")
+    R2 = created[1]
+    placed = created[2] if len(created) > 2 else None
     if "place" in toks:
-        reqs.append(("place", created[1] if len(created) > 1 else None, "PENDING"))
+        reqs.append(("place", placed, "PENDING"))
     if "cancel" in toks:
         reqs.append(("cancel", R, "CANCELLING"))
+    if "cancel2" in toks:
+        reqs.append(("cancel", R2, "CANCELLING"))
     if "update" in toks:
         reqs.append(("update", R, "UPDATING"))
     if "replace" in toks:
@@ -241,14 +250,14 @@ def _one(args):
             for u in range(1, min(j, len(h.snaps), len(twin.snaps))):
                 counts["clause:C07.c"] += 1
                 a = h.snaps[u].get(id(o))
-                tR = [v for v in twin.snaps[u].values()][0]
+                tR = twin.snaps[u][id(twin.created[created.index(o)])]
                 if a is None or a[1] != tR[1]:
                     out.append(core.v("C07.c", (rk, "in-flight", "fills"), "update %d: in-flight order fills %s, undisturbed twin %s" % (u, a and a[1], tR[1]), case))
                     break
             if rk in ("cancel", "replace") and j < len(h.snaps):
                 counts["clause:C07.b"] += 1
                 a = h.snaps[j].get(id(o))
-                tR = [v for v in twin.snaps[j - 1].values()][0] if j - 1 < len(twin.snaps) else None
+                tR = twin.snaps[j - 1][id(twin.created[created.index(o)])] if j - 1 < len(twin.snaps) else None
                 # executed before update j's volume: the old order's fills stop at those of update j-1
                 if tR is not None and a is not None and a[1] != tR[1]:
                     out.append(core.v("C07.b", (rk, "wrong book", "fills-after-cancel"), "cancelled at update %d but fills are %s, twin before that update had %s" % (j, a[1], tR[1]), case))
@@ -259,7 +268,7 @@ def _one(args):
                         out.append(core.v("C07.d", (rk, "timestamp", "cancelled_date"), "cancelled_date %s, effect update at %s" % (cd, _dt.datetime.utcfromtimestamp(pts[j] / 1e3)), case))
             if rk == "replace" and j < len(h.snaps):
                 # the replacement executes against book j-1 at 2.0
-                repl = [v for k, v in h.snaps[j].items() if k not in (id(R),) and v[3].order_type.price == 2.3 and v[3] is not (created[1] if len(created) > 1 else None)]
+                repl = [v for k, v in h.snaps[j].items() if k not in (id(R),) and v[3].order_type.price == 2.3 and v[3] is not placed]
                 counts["clause:C07.b"] += 1
                 if not repl:
                     out.append(core.v("C07.b", (rk, "wrong book", "no-replacement"), "no replacement order after update %d" % j, case))
@@ -311,14 +320,14 @@ def run(tier):
     # other latency configurations (shorter sequences)
     for n in range(1, n_main):
         for dts in itertools.product(DTS, repeat=n):
-            for kind in KINDS[:4]:
+            for kind in KINDS[:4] + KINDS[5:]:
                 for lat in ("zero", "large"):
                     jobs.append((dts, kind, lat, 0, None, None, False))
     # bet delay (changing at the turn in-play between request and effect)
     bd_dts = (100, 120, 121, 1000, 1120, 1121, 5000, 5121)
     for n in range(1, 4 if thorough else 3):
         for dts in itertools.product(bd_dts, repeat=n):
-            for kind in ("place", "replace"):
+            for kind in ("place", "replace", "place+cancel2"):
                 for bd0, ip_at, bd1 in ((1, None, None), (5, None, None), (0, 2, 1), (1, 2, 5), (5, 3, 1), (0, 3, 5)):
                     jobs.append((dts, kind, "default", bd0, ip_at, bd1, False))
     # event-grouped pair
